@@ -6,6 +6,9 @@ import common, polyrun, gen_reject
 
 
 def run(chk, exe, judge_poly, judge_except, seed, ncases, per_case):
+    if ncases <= 0:
+        return {"calls": 0, "rejected": 0, "accepted": 0, "mismatch": [], "crashes": [], "by_op": {}, "by_class": {}, "judge_fails": [], "undecided": 0,
+                "generator_emptiness_mismatch": 0, "followups": 0, "stat": {}, "variants": set()}
     work = os.path.join(common.BUILD, "work-C14-rej-%d" % os.getpid())
     shutil.rmtree(work, ignore_errors=True); os.makedirs(work)
     rc, out = common.sh([exe, "maxdim"])
@@ -26,6 +29,7 @@ def run(chk, exe, judge_poly, judge_except, seed, ncases, per_case):
         l = obs_lines[oi]; oi += 1
         return l
     for c in kept:
+        shown = {}        # object id -> state line last shown to the judge (textually identical lines need no second verification)
         cid = c[0].split(" ")[1]
         m = meta[cid]; mi = 0
         empty = m["empty"]
@@ -89,7 +93,10 @@ def run(chk, exe, judge_poly, judge_except, seed, ncases, per_case):
                             pass
                 else:
                     # rejected: every object of the pool must be unchanged (verified equivalence + OK())
-                    jcase.append("stall"); jobs += sts + ["endst"]
+                    fresh = [x for x in sts if shown.get(x.split(" ")[1]) != x]
+                    res.setdefault("unchanged_textually", 0); res["unchanged_textually"] += len(sts) - len(fresh)
+                    for x in fresh: shown[x.split(" ")[1]] = x
+                    jcase.append("stall"); jobs += fresh + ["endst"]
     # ---- the model's expectations ----
     rf = os.path.join(work, "shapes.req")
     with open(rf, "w") as f: f.write("\n".join(reqs) + "\n")
